@@ -15,6 +15,7 @@ import (
 	"github.com/pascaldekloe/mqtt/mqtttest"
 
 	"verif/run"
+	"verif/sim"
 )
 
 // recTB is a recording testing.TB. Only the methods the doubles may use are
@@ -314,6 +315,10 @@ func exchangeCase(c *run.Ctx, script []int, withErrFix bool) bool {
 				return false
 			}
 		case <-time.After(5 * time.Second):
+			if sim.Starved(200 * time.Millisecond) {
+				c.Inconclusive("machine overloaded while waiting for the exchange stub")
+				return false
+			}
 			c.Violate("exchange-stub-sequence", fmt.Sprintf("%s: entry %d never delivered", desc, i), nil)
 			return false
 		}
@@ -337,6 +342,10 @@ func exchangeCase(c *run.Ctx, script []int, withErrFix bool) bool {
 			return false
 		}
 	case <-time.After(5 * time.Second):
+		if sim.Starved(200 * time.Millisecond) {
+			c.Inconclusive("machine overloaded while waiting for the exchange stub")
+			return false
+		}
 		c.Violate("exchange-stub-end", fmt.Sprintf("%s: channel not closed after the script", desc), nil)
 		return false
 	}
